@@ -203,7 +203,7 @@ _check_dominates(2, 3)
 
 
 def _check_dominates_history(mutation):
-    @task("C11", "Rect.history[check_dominates, m=2, K=2: construct, use, %s, use]" % mutation)
+    @task("C11", "Rect.history[check_dominates, m=2, K=2; construct, use, %s, use]" % mutation)
     def _t(t):
         """The answer refers to the bounds displayed NOW: both rectangles are built by the real constructor, the test is used once,
         the SECOND rectangle (the one whose transformed vertices form the polytope) is changed by the real `%s`, and the test is
